@@ -270,7 +270,7 @@ func runC15(c *Collector, r *Rng, thorough bool) {
 	crvs := []*W{nil, wInt(0, -1), wInt(1, -1), wInt(2, -1), wInt(3, -1), wInt(4, -1), wInt(5, -1), wInt(6, -1), wInt(7, -1), wInt(8, -1), wTstr("P-256", -1)}
 	algs := []*W{nil, wInt(0, -1), wInt(-7, -1), wInt(-35, -1), wInt(-36, -1), wInt(-8, -1), wInt(-37, -1), wTstr("ES256", -1)}
 	opss := []*W{nil, wArr(-1), wArr(-1, wInt(1, -1)), wArr(-1, wInt(2, -1)), wArr(-1, wInt(1, -1), wInt(2, -1)), wArr(-1, wTstr("sign", -1)), wArr(-1, wInt(99, -1)), wTstr("sign", -1), wArr(-1, wTstr("bogus", -1)), wArr(-1, wBool(true))}
-	lens := []int{-1, 0, 31, 32, 33, 48, 66, 67}
+	lens := []int{-1, 0, 16, 31, 32, 33, 48, 64, 66, 67}
 	count := 0
 	for _, kty := range ktys {
 		for _, crv := range crvs {
@@ -337,7 +337,8 @@ func runC15(c *Collector, r *Rng, thorough bool) {
 		c15One(c, "byte-fault/"+desc, b)
 	}
 	// corpus of earlier findings
-	for _, hx := range []string{"a201022061", "a20102206161", "a3010220010480", "a401012006215820" + zeros(32) + "0480", "a1d9d9f7011863", "d8636161", "d863a10104"} {
+	for _, hx := range []string{"a201022061", "a20102206161", "a3010220010480", "a401012006215820" + zeros(32) + "0480", "a1d9d9f7011863", "d8636161", "d863a10104",
+		"a30101200623" + "5840" + zeros(64), "a30101200623" + "50" + zeros(16), "a3010120062358" + "21" + zeros(33), "a401012006215840" + zeros(64) + "235820" + zeros(32)} {
 		c15One(c, "corpus", unhex(hx))
 	}
 }
